@@ -235,7 +235,7 @@ def sim_jobs(tier, only_bounds=False):
             cfgs = cfgs[:2]
     else:
         cfgs = [(S2, (0, 1), 4, "ideal", 1, 5), (S2, (0, 0), 4, "stepwise", 2, 60), (S3, (0, 1, 1), 4, "ideal", 2, 1),
-                (S3, (0, 0, 2), 4, "stepwise", 1, 5), (S3, (0, 1, 2), 3, "ideal", 3, 60)]
+                (S3, (0, 0, 2), 4, "ideal", 1, 5), (S3, (0, 0, 2), 3, "stepwise", 1, 5), (S3, (0, 1, 2), 3, "ideal", 3, 60)]
         if only_bounds:
             # the entrywise bounds (C03's simulation-level corollary) on the lighter scenarios; the three-session stepwise
             # scenario is judged with the full ledger by C02's own thorough tier
